@@ -119,11 +119,18 @@ def be_driver_phase(ck, tier, gen, monitor, n_quick, n_thorough, name):
         c0 = byline[line]; t_end = time.time() + 60
         def mk(cmds):
             c = copy.copy(c0); c.cmds = list(cmds); return c
+        def msg_of(c):
+            i = ck.run_impl(iexe, [c.line()], per_case_timeout=3)[0]
+            if i.startswith(('CRASH', 'HANG', 'NOOUTPUT')): return i.split()[0]
+            m = monitor(c, BC.parse_obs(i))
+            return None if m is None else ''.join(ch for ch in m if not ch.isdigit())[:40]
+        orig = msg_of(c0) if mode == 'monitor' else None
         def fails(cmds):
             if time.time() > t_end: return False
-            c = mk(cmds); l = c.line(); i = ck.run_impl(iexe, [l], per_case_timeout=3)[0]
+            c = mk(cmds)
             if mode == 'monitor':
-                return (i.startswith(('CRASH', 'HANG', 'NOOUTPUT')) or monitor(c, BC.parse_obs(i)) is not None)
+                return msg_of(c) == orig          # the same kind of failure, not just any failure (a shrunk case without its drain fails trivially)
+            l = c.line(); i = ck.run_impl(iexe, [l], per_case_timeout=3)[0]
             return ck.run_model(mexe, [l])[0] != i
         return mk(ddmin(c0.cmds, fails, max_tests=120)).line()
     dis, mons = correspond(ck, name, lines, ml, il, monitor=mon, shrink=shrink)
